@@ -736,7 +736,7 @@ func (g *edGen) fixup(w *edW, b *edBoard, d int, inherited *edBoard) {
 		if o.noFix {
 			continue
 		}
-		if !o.keyed && g.r.P(0.2) {
+		if !o.keyed && g.r.P(0.35) {
 			// stays an object that exists only through connections / dotted paths (no key
 			// of its own, default label): boards that inherit it see it as an endpoint only
 			g.feat["endpoint-only-object"] = true
